@@ -76,6 +76,13 @@ type scenario struct {
 	Force int // specials: >0 forces this case of the special scenario (fixed special cases)
 }
 
+func ippAttr(tag byte, name, val string) []byte {
+	b := []byte{tag, byte(len(name) >> 8), byte(len(name))}
+	b = append(b, name...)
+	b = append(b, byte(len(val)>>8), byte(len(val)))
+	return append(b, val...)
+}
+
 func fixedCases(s gen.Service) [][][]byte {
 	line := func(l ...string) [][]byte {
 		var o [][]byte
@@ -108,7 +115,7 @@ func fixedCases(s gen.Service) [][][]byte {
 			return [][]byte{gen.HTTPRequest("POST", "/printers/x", [][2]string{{"Host", "p"}, {"Content-Type", "application/ipp"}}, body, false)}
 		}
 		hdr := []byte{1, 1, 0, 0x0b, 0, 0, 0, 1}
-		return [][][]byte{
+		cases := [][][]byte{
 			mk(append(append([]byte{}, hdr...), 0x03)),
 			mk(append([]byte{}, hdr...)),                                         // no groups, no end tag
 			mk(append(append([]byte{}, hdr...), 0x01)),                           // group, no end tag
@@ -116,6 +123,24 @@ func fixedCases(s gen.Service) [][][]byte {
 			mk(append(append([]byte{}, hdr...), 0x01, 0x22, 0, 1, 'f', 0, 1, 1, 0x03)),
 			mk(hdr[:3]),
 		}
+		// a well-formed Get-Printer-Attributes request whose last keyword value announces a small negative length
+		// (0xFFFF-k): a decoder that moves backwards by it lands on bytes it has already read
+		for k := 0; k <= 12; k++ {
+			b := append([]byte{}, hdr...)
+			b = append(b, 0x01)
+			b = append(b, ippAttr(0x47, "attributes-charset", "utf-8")...)
+			b = append(b, ippAttr(0x48, "attributes-natural-language", "en")...)
+			b = append(b, ippAttr(0x45, "printer-uri", "ipp://p/printers/x")...)
+			b = append(b, ippAttr(0x44, "requested-attributes", "printer-state")...)
+			b = append(b, 0x44, 0, 0, 0xff, byte(0xff-k))
+			b = append(b, 0x03)
+			cases = append(cases, mk(b))
+			// the same in the name-length field
+			c := append([]byte{}, b[:len(b)-6]...)
+			c = append(c, 0x44, 0xff, byte(0xff-k), 0x03)
+			cases = append(cases, mk(c))
+		}
+		return cases
 	case "ldap":
 		return [][][]byte{
 			{{0x30, 0x0c, 0x02, 0x01, 0x01, 0x60, 0x07, 0x02, 0x01, 0x03, 0x04, 0x00, 0x80, 0x00}},
@@ -364,6 +389,30 @@ func (prop) Child(b core.Batch, o *core.Obs) {
 			}
 		}
 		o.End(k)
+		if k%20 == 19 || k == to-1 {
+			// memory that keeps growing with every client gone: two windows of four samples 150 ms apart, one
+			// second between them; both must show heap and resident memory strictly increasing by more than
+			// 24 MiB (a handler that spins on what it has already received)
+			window := func() ([]lab.MemSample, bool) {
+				ms := []lab.MemSample{lab.Mem(true)}
+				grow := true
+				for i := 1; i < 4; i++ {
+					time.Sleep(150 * time.Millisecond)
+					ms = append(ms, lab.Mem(false))
+					if ms[i].Heap <= ms[i-1].Heap || ms[i].RSS <= ms[i-1].RSS {
+						grow = false
+						break
+					}
+				}
+				return ms, grow && ms[len(ms)-1].Heap-ms[0].Heap > 24<<20
+			}
+			if w1, g1 := window(); g1 {
+				time.Sleep(time.Second)
+				if w2, g2 := window(); g2 {
+					o.EmitX("idlegrow", map[string]interface{}{"k": k, "window1": w1, "window2": w2})
+				}
+			}
+		}
 		if k%40 == 39 {
 			// idle memory samples (no client input in flight)
 			var ms []lab.MemSample
